@@ -24,7 +24,9 @@ def opOf (kind : Kind) (j : Json) : R (ObjOp ℚ) := do
   | "copy" => return .copy
   | "astype" => return .astype
   | "flatten" => return .flatten
-  | "apply" => return .apply (← ndf j "A")
+  | "apply" =>
+    let A ← ndf j "A"
+    return .apply A A            -- (no class of the histories carries dual data: the second matrix is never read)
   | "reshape" => return .reshape (← natsf j "s")
   | "index" => return .index (← natf j "k")
   | "setitem" => return .setItem (← natf j "k") (← ndf j "v")
